@@ -57,6 +57,10 @@ class GenE:
         self.rng, self.cfg, self.pipes, self.drv = rng, cfg, pipes, drv
         self.sc = {"layer": "E", "cfg": cfg, "pipes": pipes, "steps": []}
         if rng.random() < 0.35:
+            # before building an assignment the pipeline's assignable operators are listed without the dependency filter, as naive and priority do
+            # in multi-operator mode in every round: a listing decides nothing and must leave nothing behind
+            self.sc["listing"] = True
+        if rng.random() < 0.35:
             # every assignment of the scenario carries these flags (as a REST peer may send them): admission and accounting must not depend on them
             self.sc["flags"] = {"is_resume": rng.random() < 0.75, "force_run": rng.random() < 0.4}
         self.q, self.g = quantum(cfg["tps"])
@@ -569,7 +573,7 @@ def gen_oom(seed, drv, over=True):
             read = rng.choice([F(5, 2), 5, 10, 20, 40])
             fixed = rng.choice([None, None, None, rng.choice([1, 4, 8, 16])])
             ops.append(simple_op(tps, rng.randint(0, 4), read=fstr(read), fixed=fixed, parents=[i - 1] if i else []))
-        pipes.append({"prio": 3, "ops": ops})
+        pipes.append({"prio": rng.choice([3, 3, 1, 1, 2]), "ops": ops})      # the killer looks at memory, not at who is a query
     g = _mk(rng, cfg, pipes, drv)
     started = 0
     for t in range(50):
@@ -704,6 +708,34 @@ def gen_unrelated_branch_completes(seed, drv):
     g.count("start_with_running_parent_after_an_unrelated_branch_completed")
     g.assign(0, 1, 1, [(0, 3)])
     for _ in range(3):
+        if g.dead:
+            break
+        g.tick()
+    g.sc["order"] = g.order
+    return g
+
+
+def gen_zero_tick_tail(seed, drv):
+    """multi-operator containers: an operator whose *last* segment rounds to no tick at all (an earlier one takes some), followed in the same container by
+    an operator that does not depend on it.  The operator is complete when its ticks are used up -- the container must report a success only with every
+    operator COMPLETED"""
+    rng = random.Random(seed)
+    tps = rng.choice([1, 2, 4])
+    cfg = {"tps": tps, "multi": True, "over": False, "npools": 1, "cpus": 8, "ram": "8"}
+    small = fstr(F(1, 64))
+    zero = rng.choice([{"base": "0", "law": "const", "fixed": small, "read": "0"},
+                       {"base": fstr(F(1, 4 * tps)), "law": "const", "fixed": small, "read": "0"}])
+    first = {"parents": [], "segs": [{"base": fstr(F(rng.randint(1, 3), tps)), "law": "const", "fixed": small, "read": "0"}] +
+                                    ([{"base": fstr(F(1, tps)), "law": "const", "fixed": small, "read": "0"}] if rng.random() < 0.4 else []) + [zero]}
+    ops = [first, simple_op(tps, rng.randint(1, 2), fixed=F(1, 64))]
+    refs = [(0, 0), (0, 1)]
+    if rng.random() < 0.5:
+        ops.append(simple_op(tps, 1, fixed=F(1, 64), parents=[0]))
+        refs.append((0, 2))
+    g = _mk(rng, cfg, [{"prio": 3, "ops": ops}], drv)
+    g.assign(0, 1, 1, refs)
+    g.count("zero_tick_last_segment_then_independent_operator")
+    for _ in range(10):
         if g.dead:
             break
         g.tick()
